@@ -64,6 +64,10 @@ def ev(node, env):
     if isinstance(node, (ast.Tuple, ast.List)):
         vals = [ev(e, env) for e in node.elts]
         return tuple(vals) if isinstance(node, ast.Tuple) else vals
+    if isinstance(node, ast.Dict) and all(k is not None for k in node.keys):
+        return {ev(k, env): ev(v, env) for k, v in zip(node.keys, node.values)}
+    if isinstance(node, ast.Set):
+        return {ev(e, env) for e in node.elts}
     if isinstance(node, ast.BoolOp):
         if isinstance(node.op, ast.And):
             val = True
@@ -125,9 +129,13 @@ def ev(node, env):
     if isinstance(node, ast.Call):
         name = u(node.func)
         fn = env.get(name) if name in env else BUILTINS.get(name)
+        if fn is None and isinstance(node.func, ast.Attribute) and node.func.attr in ('add', 'append', 'update', 'discard', 'items', 'get', 'keys', 'values', 'copy', 'setdefault'):
+            recv = ev(node.func.value, env)
+            if isinstance(recv, (dict, set, list)):
+                return getattr(recv, node.func.attr)(*[ev(a, env) for a in node.args])
         if fn is None:
             raise Unsupported('call ' + name)
-        return fn(*[ev(a, env) for a in node.args])
+        return fn(*[ev(a, env) for a in node.args], **{k.arg: ev(k.value, env) for k in node.keywords if k.arg})
     if isinstance(node, ast.Attribute):
         name = u(node)
         if name in env:
@@ -187,6 +195,11 @@ def run_stmts(stmts, env):
                     break
             if not broke:
                 run_stmts(st.orelse, env)
+        elif isinstance(st, ast.AugAssign) and isinstance(st.target, ast.Name):
+            env[st.target.id] = ev(ast.BinOp(left=ast.Name(id=st.target.id, ctx=ast.Load()), op=st.op, right=st.value), env)
+        elif isinstance(st, ast.Expr) and isinstance(st.value, ast.Call) and isinstance(st.value.func, ast.Attribute) and \
+                st.value.func.attr in ('add', 'append', 'update', 'discard', 'setdefault'):
+            ev(st.value, env)
         elif isinstance(st, ast.Break):
             raise Broke()
         elif isinstance(st, ast.Continue):
